@@ -111,6 +111,8 @@ class Env:
         return self._fn('exp', x)
 
     def log(self, x):
+        if not self.sym and not isinstance(x, _np.ndarray) and not (x > 0):
+            raise ReplayPreconditionFailed('log of a non-positive value (side condition of the symbolic run)')
         return self._fn('log', x)
 
     def sin(self, x):
@@ -120,6 +122,8 @@ class Env:
         return self._fn('cos', x)
 
     def sqrt(self, x):
+        if not self.sym and not isinstance(x, _np.ndarray) and not (x >= 0):
+            raise ReplayPreconditionFailed('sqrt of a negative value (side condition of the symbolic run)')
         return self._fn('sqrt', x)
 
     def sinpi(self, num, den):
@@ -154,7 +158,7 @@ class Env:
     def le(self, a, b):
         if self.sym:
             return SR.lift(a) <= SR.lift(b)
-        return _f(a) <= _f(b) + self.atol
+        return _f(a) <= _f(b) + 1e-12 * max(abs(_f(a)), abs(_f(b)))
 
     def band(self, *conds):
         if self.sym:
@@ -178,10 +182,10 @@ class Env:
     def mark(self):
         return len(self.ctx.pc) if self.sym else 0
 
-    def _abstract_query(self, ctx, pc, e, srs, lemmas=None):
+    def _abstract_query(self, ctx, pc, e, srs, lemmas=None, light=False):
         """generalise the query: the listed intermediate results (SR objects) are replaced by fresh variables
         (numerator and denominator separately, denominator != 0) in the claim, the assumptions, the path condition
-        and the facts about algebraic constants; side conditions and function axioms are dropped. Every step only
+        and the axioms; definedness side conditions are dropped. Every step only
         weakens the hypotheses, so `unsat` here implies the original obligation."""
         subs = []; facts = []
         seen = set()
@@ -197,8 +201,11 @@ class Env:
                     facts.append(v != 0)
         if not subs:
             return None
-        alg = [f for f in ctx.axioms if _mentions(f, set(ctx.alg)) and not _mentions_prefix(f, ('exp!', 'log!', 'sin!', 'cos!', 'sqrt!'))]
-        base = [z3.substitute(f, *subs) for f in (ctx.assumes + pc + alg)] + facts
+        if light:
+            ax = [f for f in ctx.axioms if not _mentions_prefix(f, ('exp!', 'log!', 'sin!', 'cos!', 'sqrt!'))]
+        else:
+            ax = ctx.axioms
+        base = [z3.substitute(f, *subs) for f in (ctx.assumes + pc + ax)] + facts
         # lemmas: equalities between intermediates that the harness has claimed separately (each is its own
         # obligation); they are the only facts about the abstracted terms that survive the abstraction
         for a, b in (lemmas or []):
@@ -232,11 +239,12 @@ class Env:
         if sig in self.cache:
             return
         self.cache[sig] = True
-        if abstract and not canary:
-            q = self._abstract_query(ctx, pc, e, abstract, lemmas)
+        for light in ((True, False) if (abstract and not canary) else ()):
+            # stage 1: without the axioms of the Ackermannised functions (cheapest); stage 2: with them
+            q = self._abstract_query(ctx, pc, e, abstract, lemmas, light=light)
             if q is not None:
                 t0 = time.time()
-                sv = z3.Solver(); sv.set('timeout', timeout_ms or self.timeout_ms)
+                sv = z3.Solver(); sv.set('timeout', min(timeout_ms or self.timeout_ms, 15000) if light else (timeout_ms or self.timeout_ms))
                 sv.add(*q[0]); sv.add(z3.Not(q[1]))
                 r = str(sv.check()); dt = time.time() - t0
                 self.stats['queries'] += 1; self.stats['solver_s'] += dt; self.stats['max_query_s'] = max(self.stats['max_query_s'], dt)
@@ -245,9 +253,23 @@ class Env:
                     self.results.append(dict(key=key, verdict='holds', s=round(dt, 3), canary=False, abstracted=True,
                                              path=''.join('T' if d[0] else 'F' for d in ctx.decisions[:ctx.pos])))
                     return
+        if not canary and (ctx.side or ctx.uf):
+            # cheapest first: only the input assumptions, the path condition and the defining facts of the algebraic
+            # constants (dropping hypotheses is sound for `unsat`); most identities need nothing else
+            lb = ctx.assumes + pc + [f for f in ctx.axioms if f.get_id() in ctx.alg_axiom_ids]
+            t0 = time.time()
+            sv = z3.Solver(); sv.set('timeout', min(timeout_ms or self.timeout_ms, 10000))
+            sv.add(*lb); sv.add(z3.Not(e))
+            r = str(sv.check()); dt = time.time() - t0
+            self.stats['queries'] += 1; self.stats['solver_s'] += dt; self.stats['max_query_s'] = max(self.stats['max_query_s'], dt)
+            if r == 'unsat':
+                self.stats['light'] = self.stats.get('light', 0) + 1
+                self.results.append(dict(key=key, verdict='holds', s=round(dt, 3), canary=False, light=True,
+                                         path=''.join('T' if d[0] else 'F' for d in ctx.decisions[:ctx.pos])))
+                return
         t0 = time.time()
         sv = z3.Solver()
-        sv.set('timeout', timeout_ms or self.timeout_ms)
+        sv.set('timeout', min(timeout_ms or self.timeout_ms, 8000) if canary else (timeout_ms or self.timeout_ms))
         sv.add(*base)
         sv.add(z3.Not(e))
         r = str(sv.check())
@@ -283,6 +305,11 @@ class Env:
             return
         # sat or unknown: look for a replayable counterexample
         model = sv.model() if r == 'sat' else None
+        if len(self.violations) >= 3:
+            # this instance already has replayed violations: further failing obligations are listed, not searched
+            rec['verdict'] = 'not-searched'
+            self.results.append(rec)
+            return
         confirmed = self._find_cex(key, base, e, robust, model, ctx)
         if confirmed:
             rec['verdict'] = 'violation'
@@ -410,43 +437,40 @@ class Env:
         return None
 
     def _find_cex(self, key, base, e, robust, model, ctx):
-        tried = 0
-        # 1. robust + boxed variant of the query (a margin makes the float replay meaningful)
+        """look for a counterexample that REPRODUCES on the real code. Order: the solver's own model; seeded random
+        concretisation of all but k inputs (cheap, the sat side of nlsat is slow on large systems); margin/boxed
+        variants of the query."""
+        neg = robust if robust is not None else z3.Not(e)
+        if model is not None:
+            p = self._replay(key, self._model_values(model, ctx))
+            if p:
+                return p
+        if self.ladder:
+            rnd = random.Random(self.seed * 7919 + len(self.results))
+            names = list(self.inputs)
+            for k in (0, 0, 1, 2, 0, 0):
+                free = set(rnd.sample(names, min(k, len(names))))
+                fixed = {}
+                for n in names:
+                    if n in free:
+                        continue
+                    fixed[n] = Fraction(rnd.randint(1, 24), rnd.choice([2, 3, 4, 5, 8])) * rnd.choice([1, 1, 1, -1])
+                m = self._ladder_query(base, neg, fixed, ctx)
+                if m is None:
+                    continue
+                p = self._replay(key, self._model_values(m, ctx, fixed=fixed))
+                if p:
+                    return p
         boxes = []
         for name, v in self.inputs.items():
             boxes += [v <= self.box, v >= -self.box]
-        neg = robust if robust is not None else z3.Not(e)
-        for cons in ([neg] + boxes, [neg], None):
-            if cons is None:
-                m = model
-            else:
-                sv = z3.Solver(); sv.set('timeout', min(self.timeout_ms, 30000))
-                sv.add(*base); sv.add(*cons)
-                t0 = time.time(); r = str(sv.check()); self.stats['queries'] += 1; self.stats['solver_s'] += time.time() - t0
-                m = sv.model() if r == 'sat' else None
-            if m is None:
+        for cons in ([neg] + boxes, [neg]):
+            sv = z3.Solver(); sv.set('timeout', min(self.timeout_ms, 20000))
+            sv.add(*base); sv.add(*cons)
+            t0 = time.time(); r = str(sv.check()); self.stats['queries'] += 1; self.stats['solver_s'] += time.time() - t0
+            if r != 'sat':
                 continue
-            tried += 1
-            p = self._replay(key, self._model_values(m, ctx))
-            if p:
-                return p
-        # 2. ladder: concretise all but k inputs with seeded random small rationals, pin UF values numerically
-        if not self.ladder:
-            return None
-        rnd = random.Random(self.seed * 7919 + len(self.results))
-        names = list(self.inputs)
-        for k in (2, 1, 0, 0, 0, 0):
-            free = set(rnd.sample(names, min(k, len(names))))
-            fixed = {}
-            for n in names:
-                if n in free:
-                    continue
-                fixed[n] = Fraction(rnd.randint(1, 24), rnd.choice([2, 3, 4, 5, 8])) * rnd.choice([1, 1, 1, -1])
-            m = self._ladder_query(base, neg, fixed, ctx)
-            if m is None:
-                continue
-            vals = self._model_values(m, ctx, fixed=fixed)
-            p = self._replay(key, vals)
+            p = self._replay(key, self._model_values(sv.model(), ctx))
             if p:
                 return p
         return None
